@@ -7,11 +7,14 @@ import Pacti.Driver.OpsAlg
 import Pacti.Driver.OpsEq
 import Pacti.Driver.OpsCompound
 import Pacti.Driver.OpsSession
+import Pacti.Driver.OpsSyntax
+import Pacti.Driver.OpsSerial
+import Pacti.Driver.OpsDict
 open Lean Wire
 
 /-- every op family registers one handler here -/
 def handlers : List (String → Json → Option (Except String Json)) :=
-  [handlePoly, OpsSym.handleSym, OpsElim.handleElim, handlePlots, OpsAlg.handleAlg, handleEq, handleCompound, OpsSession.handleSession]
+  [handlePoly, OpsSym.handleSym, OpsElim.handleElim, handlePlots, OpsAlg.handleAlg, handleEq, handleCompound, OpsSession.handleSession, handleSyntax, handleSerial, handleDict]
 
 def handle (j : Json) : Except String Json := do
   let op ← (← j.getObjVal? "op").getStr?
@@ -31,6 +34,7 @@ partial def loop (h : IO.FS.Stream) (out : IO.FS.Stream) : IO Unit := do
       | .ok r => r.setObjVal! "id" id
       | .error e => Json.mkObj [("id", id), ("fatal", Json.str e)]
   out.putStrLn resp.compress
+  out.flush   -- one answer per request line, immediately: lets a client keep one driver process open
   loop h out
 
 def main : IO Unit := do
